@@ -195,3 +195,7 @@ func SameBits(a, b float64) bool {
 	}
 	return math.Float64bits(a) == math.Float64bits(b)
 }
+
+// Native reports whether the harness is running in the real build (replay) rather than in the
+// engine; used only to add diagnostics to replays.
+func Native() bool { return true }
